@@ -218,6 +218,7 @@ let () =
   if String.length mode > 8 && String.sub mode 0 8 = "monitor:" then begin
     let pid = String.sub mode 8 (String.length mode - 8) in
     if pid = "C18" then (List.iter Lease.monitor_file files; exit 0);
+    if pid = "C20" then (List.iter Eventer.monitor_file files; exit 0);
     if List.mem pid ["C04"; "C06"; "C07"; "C09"; "C17"] then begin
       List.iter (fun path ->
           try
@@ -237,6 +238,7 @@ let () =
   end;
   if mode = "sreplay" then (List.iter Shared.replay_file files; exit 0);
   if mode = "lreplay" then (List.iter Lease.replay_file files; exit 0);
+  if mode = "ereplay" then (List.iter Eventer.replay_file files; exit 0);
   if mode = "monitor:C18" then (List.iter Lease.monitor_file files; exit 0);
   if mode <> "replay" then (prerr_endline ("unknown mode " ^ mode); exit 2);
   List.iter (fun path ->
